@@ -38,6 +38,12 @@ def units(tier, seed):
                                   gsc=({"kind": "horizon"}, {"kind": "evals", "n": 90})[(k + j) % 2],
                                   sprout={"kind": ("simple", "nbc")[(k + j + mx) % 2], "L": 2}, hib=bool((k // 2) % 2),
                                   box=("B_asym", "B_dec", "B_3d")[(k + j) % 3]))
+    # objectives that are undefined (NaN) on part of the box: NaN must rank as the worst value
+    nan_shapes = [e for e in shapes_h1() + shapes_h2() if not any(v.startswith("CMA") or v == "LOC" for v in e)]
+    for k, eng in enumerate(nan_shapes if tier == "thorough" else nan_shapes[::2]):
+        for mx in (False, True):
+            for sd in range(3):
+                descs.append(dict(engines=list(eng), gens=1 + k % 2, maximize=mx, obj="nanhole", Mh=3, seed=s + sd, sprout={"kind": ("simple", "nbc")[k % 2], "L": 2}))
     us = [{"kind": "run", "descs": c} for c in chunks(descs, 12)]
     nmax = 120 if tier == "quick" else 300
     for box in ("B_asym", "B_dec"):
@@ -100,6 +106,8 @@ def run_unit(unit):
 def finish(res, tier):
     if res.flags["best == best observed"] < 200 or res.flags["best improved during the run"] < 200:
         raise Vacuous("best-individual clauses hardly exercised")
+    if res.flags["run with NaN objective values"] < 50:
+        raise Vacuous("NaN-valued objective hardly exercised")
     if res.extra["budget pairs compared"] < 1000:
         raise Vacuous("budget pairs not compared")
     if res.configs_completed < res.configs:
